@@ -11,6 +11,21 @@ NOTE = ("Trusted: Lean 4.33 kernel + axioms propext/Classical.choice/Quot.sound 
         "(real code vs compiled model on the same cases); CPython/stdlib semantics re-expressed in the model. ")
 
 CHECKS = {
+    "C18": dict(
+        text="Theorems C18_classify (for every timed-out flag and every integer return code: TIMEOUT iff timed out, NORMAL iff 0, CRASH iff negative / 77 / >= 2^31, ABNORMAL otherwise, return code hidden iff TIMEOUT, crashes iff CRASH, hangs iff TIMEOUT) and C18_capture (pipe and log-file capture both return exactly the bytes written before exit/kill, for every abstract child and limit). Tied to timed_run.py / crashes.py / hangs.py by real children: every exit code 0..255, every terminating signal, before/past the limit, outputs up to 1 MiB on both streams, both capture modes, pid liveness after return.",
+        note=NOTE + "Pipes, kill and wait are the OS; the capture theorem is about an abstract child and tied to reality only by the real-children runs.",
+        technique="Lean 4 proof (decision chain by cases + omega; capture machine) + exhaustive real-child differential runs",
+        ref="§4 C18"),
+    "C19": dict(
+        text="Theorems C19_outputs (both capture modes give the same verdict = occurrence / regex match in stdout or stderr, regex as an uninterpreted predicate), C19_diff (interesting iff exit status, stdout or stderr differ, None on timeout), C19_repeat (verdict iff some run 1..N succeeds; inner runs = index of first success else N) with repeatLoop_spec by induction, C19_repeat_args. Tied to outputs.py / diff_test.py / repeat.py by real children and a real inner module: stream x search grid in both modes, behaviour pairs incl. same-output/different-code and signals, every inner verdict sequence for N <= 4/6 with default and custom cookies.",
+        note=NOTE + "`re` is uninterpreted; filecmp.cmp's shallow mode is modelled as content comparison.",
+        technique="Lean 4 proof (induction on the repeat loop; case analysis) + real-child differential runs in both capture modes",
+        ref="§4 C19"),
+    "C20": dict(
+        text="Theorems C20_sequential (every set of taken names: result = least free N >= 1), C20_fault (any other mkdir failure stops at once), C20_concurrent (every k, every pre-existing set, EVERY schedule of mkdir attempts: finished runs hold pairwise distinct, self-created, not pre-existing directories; invariant Safe by induction over the schedule). Tied to reducer.py by all subsets of tmp1..tmp6 as dirs/files, injected mkdir errors under a watchdog, and complete enumeration of interleavings of 2/3/4 logical runs at os.mkdir/stat/listdir granularity, plus real processes released together.",
+        note=NOTE + "Atomicity of mkdir(2) is assumed.",
+        technique="Lean 4 proof (invariant over arbitrary schedules) + exhaustive interleaving enumeration of the real code",
+        ref="§4 C20"),
     "C03": dict(
         text="Theorem C03_one_minimal: for EVERY deterministic test f : bytes -> bool (monotone or not), min=1, repeat in {last,always}, no time limit, any max >= 1, repeat-first or not, every well-formed testcase with non-empty atoms, the model of Minimize.reduce ends with f(best minus atom i) = false for every remaining atom i. The follow-up clause is kept as C03_followup_statement (not claimed), refuted by C03_followup_counterexample (decide) and recorded as a finding; C03_followup_partial covers the case where re-splitting reproduces the atoms. Tied to strategies.py by proposal-by-proposal differential execution of the real Minimize.reduce vs the model under every deterministic test for n <= 4 atoms and oracle families on the five real loaders.",
         note=NOTE + "Non-empty atoms is C06; SHA-512 de-duplication is modelled as equality of contents.",
